@@ -169,10 +169,8 @@ def toValue (cfg : Cfg) (ext : Ext) : SVal → Except SerErr JV
   -- self.serialize_str(variant)
   | .unitVariant v => .ok (.str v)
   | .newtypeStruct p => toValue cfg ext p
-  | .newtypeVariant v p =>
-    match toValue cfg ext p with
-    | .error e => .error e
-    | .ok x => .ok (tagged cfg v x)
+  -- values.insert(String::from(variant), tri!(to_value(value)))
+  | .newtypeVariant v p => (toValue cfg ext p).map (tagged cfg v)
   -- SerializeVec { vec }: push(tri!(to_value(value))) per element; end = Value::Array(vec)
   | .seq _ xs => (toValues cfg ext xs).map .arr
   | .tuple xs => (toValues cfg ext xs).map .arr
